@@ -3,5 +3,5 @@ CONSTANTS
   Confs <- DynamicConfs
   Factors <- MCFactors
   ClampFixed = FALSE
-INVARIANTS TypeOK ExactEnd NoOvershoot Contiguous CleanAttempt RowsOrdered AllRequested
+INVARIANTS TypeOK MaxStepRespected ExactEnd NoOvershoot Contiguous CleanAttempt RowsOrdered AllRequested
 PROPERTY Terminates
